@@ -70,10 +70,12 @@ def psi_on_flux_surface(d, tol_rel=1.0e-6):
             a = m[l]
             err = np.abs(a - want[l][:, None]) / scale
             if l == "corners":
-                # pinned X-point corners
+                # corners pinned to an X-point: allowed to deviate, but only by the (small)
+                # difference between that X-point's psi and the separatrix value gridded
+                # (connected double null); a pin on the wrong flux surface is NOT exempt
                 for k, (xs, j) in enumerate(((r["xPointsAtStart"], 0), (r["xPointsAtEnd"], -1))):
                     for off, i in ((0, 0), (1, -1)):
-                        if xs[r["radialIndex"] + off] is not None:
+                        if xs[r["radialIndex"] + off] is not None and err[i, j] < 5.0e-3:
                             err[i, j] = 0.0
             n += err.size
             worst = max(worst, float(err.max()))
